@@ -48,7 +48,7 @@ def find_omega_general(g_w, twoth, w_x, w_y):
     r_mat = n.dot(w_mat_x,w_mat_y)
 
     a = g_w[0]*r_mat[0][0] + g_w[1]*r_mat[0][1] 
-    b = g_w[0]*r_mat[1][0] - g_w[1]*r_mat[0][0] 
+    b = g_w[0]*r_mat[0][1] - g_w[1]*r_mat[0][0] 
     c = - n.dot(g_w, g_w) - g_w[2]*r_mat[0][2] 
     d = a*a + b*b - c*c
 
